@@ -38,25 +38,49 @@ def _inert_kwargs(is_async: bool) -> Dict[str, Any]:
     return {'middlewares': [mw, mw2], 'error_handlers': {424242: [eh]}}
 
 
-def get_world(is_async: bool, max_batch: Optional[int], fresh: bool = False, inert: bool = False, **kw: Any) -> world.World:
-    key = (is_async, max_batch, inert, tuple(sorted(kw.items())))
+def get_world(is_async: bool, max_batch: Optional[int], fresh: bool = False, inert: bool = False, debuglog: bool = False,
+              **kw: Any) -> world.World:
+    key = (is_async, max_batch, inert, debuglog, tuple(sorted(kw.items())))
     if fresh:
-        return world.World(is_async, max_batch, **kw, **(_inert_kwargs(is_async) if inert else {}))
+        w = world.World(is_async, max_batch, **kw, **(_inert_kwargs(is_async) if inert else {}))
+        w.debuglog = debuglog
+        return w
     w = _WORLDS.get(key)
     if w is None:
         w = _WORLDS[key] = world.World(is_async, max_batch, **kw, **(_inert_kwargs(is_async) if inert else {}))
+        w.debuglog = debuglog
     return w
 
 
+class _DebugLogging:
+    """the application has switched the library's loggers to DEBUG (records are built and handled, by a handler that drops
+    them); everything is put back afterwards"""
+
+    def __enter__(self):
+        import logging
+        self.lg = logging.getLogger('pjrpc')
+        self.saved = (self.lg.level, self.lg.propagate, list(self.lg.handlers))
+        self.lg.setLevel(logging.DEBUG)
+        self.lg.propagate = False
+        self.lg.handlers = [logging.NullHandler()]
+
+    def __exit__(self, *exc):
+        self.lg.setLevel(self.saved[0])
+        self.lg.propagate = self.saved[1]
+        self.lg.handlers = self.saved[2]
+        return False
+
+
 def world_for(flavour: str, max_batch: Optional[int]) -> world.World:
-    """flavour: sync | async | async-plain (plain functions on the async dispatcher) | sync-inert | async-inert"""
+    """flavour: sync | async | async-plain (plain functions on the async dispatcher) | sync-inert | async-inert |
+    sync-debuglog | async-debuglog (the 'pjrpc' loggers enabled for DEBUG)"""
     is_async = flavour.startswith('async')
     if flavour == 'async-plain':
         return get_world(True, max_batch, all_coroutines=False)
-    return get_world(is_async, max_batch, inert=flavour.endswith('-inert'))
+    return get_world(is_async, max_batch, inert=flavour.endswith('-inert'), debuglog=flavour.endswith('-debuglog'))
 
 
-EXTRA_FLAVOURS = ('async-plain', 'sync-inert', 'async-inert')
+EXTRA_FLAVOURS = ('async-plain', 'sync-inert', 'async-inert', 'sync-debuglog', 'async-debuglog')
 
 
 class TextInfo:
@@ -119,7 +143,11 @@ class Obs:
 def observe(w: world.World, text: str, context: Any = None) -> Obs:
     w.log.clear()
     o = Obs()
-    o.status, val = w.dispatch(text, context)
+    if getattr(w, 'debuglog', False):
+        with _DebugLogging():
+            o.status, val = w.dispatch(text, context)
+    else:
+        o.status, val = w.dispatch(text, context)
     o.calls = list(w.log.calls)
     o.ctor_failed = list(w.log.ctor_failed)
     o.contexts = list(w.log.contexts)
